@@ -1455,6 +1455,147 @@ def derived_stream(ctx, deep=False, model=True):
 
 
 # ---------------------------------------------------------------------------
+# TOLERANCE (round 4): _offset_from_spaces as coded (np.around / np.isclose) on ranges that are
+# misaligned by a tiny / small / large fraction of a cell.  model: offsetFromAxesTol;
+# theorems: C16.offset_tol_aligned, C16.offset_tol_accepts_exact
+
+NP_RTOL, NP_ATOL = 1e-5, 1e-8          # defaults of np.isclose (passed to the model exactly)
+EPS_CLASSES = {'zero': [Fraction(0)],
+               'tiny': [Fraction(1, 2 ** 30), Fraction(-1, 2 ** 30)],
+               'small': [Fraction(1, 2 ** 20), Fraction(-1, 2 ** 20), Fraction(1, 2 ** 16),
+                         Fraction(-1, 2 ** 16)],
+               'large': [Fraction(1, 2 ** 12), Fraction(-1, 2 ** 12), Fraction(1, 8),
+                         Fraction(-1, 2), Fraction(1, 2), Fraction(1, 2) - Fraction(1, 2 ** 20)]}
+
+
+def tolerance_cases(ctx, count):
+    rng = ctx.rng
+    for _ in range(count):
+        n = rng.randint(2, 6)
+        kind = rng.choice(['grow', 'grow', 'shrink', 'same'])
+        m = n + rng.randint(1, 4) if kind == 'grow' else \
+            (rng.randint(1, n - 1) if kind == 'shrink' else n)
+        d = abs(m - n)
+        k = rng.randint(0, d)
+        if kind != 'same' and rng.random() < 0.15:
+            k = rng.choice([-1, d + 1])
+        cls = rng.choice(['zero', 'tiny', 'tiny', 'small', 'small', 'small', 'large'])
+        eps = rng.choice(EPS_CLASSES[cls])
+        bdry = rng.choice([(False, False)] * 3 + [(True, True), (True, False)])
+        if min(n, m) < 2:
+            bdry = (False, False)
+        yield dict(kind='tolerance', n=n, m=m, k=k, eps=str(eps), cls=cls, axkind=kind,
+                   lo=str(Fraction(rng.randint(-8, 8), 4)), cell=str(rng.choice(DYADIC_CELLS)),
+                   bdry=list(bdry), mode=rng.choice(['constant', 'order0']), vseed=rng.getrandbits(32))
+
+
+def run_tolerance_case(ctx, case):
+    import odl
+    problems, lines, answers = [], [], []
+
+    def bad(tag, text):
+        problems.append((tag, text))
+    n, m, k = case['n'], case['m'], case['k']
+    eps, cell, lo = Fraction(case['eps']), Fraction(case['cell']), Fraction(case['lo'])
+    bl, br = (bool(b) for b in case['bdry'])
+    half = Fraction(1, 2)
+    nb = half * (int(bl) + int(br))
+    hi = lo + (n - nb) * cell
+    s = k + eps                                   # shift of the two grids in cells
+    # the LARGER grid starts s cells to the left of the smaller one (same: range s cells left)
+    rlo = lo - s * cell if m >= n else lo + s * cell
+    rhi = rlo + (m - nb) * cell
+    status = None
+    try:
+        dom = odl.uniform_discr(float(lo), float(hi), n, nodes_on_bdry=(bl, br))
+        ran = odl.uniform_discr(float(rlo), float(rhi), m, nodes_on_bdry=(bl, br))
+        if (core.frac(ran.min_pt[0]), core.frac(ran.max_pt[0])) != (rlo, rhi) or \
+                core.frac(ran.cell_sides[0]) != cell or \
+                core.frac(ran.grid.min()[0]) - core.frac(dom.grid.min()[0]) != rlo - lo:
+            return [('harness', 'range not exactly representable')], [], [], None
+    except Exception as e:  # noqa
+        return [('harness', 'could not build the spaces: {}'.format(e))], [], [], None
+    try:
+        op = odl.ResizingOperator(dom, ran, pad_mode=case['mode'])
+        status = 'ok off={}'.format(int(op.offset[0]))
+    except ValueError as e:
+        op, status = None, shift_err_kind(e)
+    except Exception as e:  # noqa
+        op, status = None, 'err:' + type(e).__name__
+    d = abs(m - n)
+    inrange = (0 <= k <= d) if m != n else True
+    if case['cls'] in ('zero', 'tiny') and inrange:
+        # aligned exactly, or up to 2^-30 cells (float round-off scale, below atol of np.isclose)
+        want = 'ok off={}'.format(k if m != n else 0)
+        if status != want:
+            bad('aligned-refused', 'range aligned up to {} cells ({} -> {} cells, {} cells to the '
+                'left) answered {} instead of {}'.format(eps, n, m, k, status, want))
+    if case['cls'] == 'large' and status.startswith('ok'):
+        bad('misaligned-accepted', 'range misaligned by {} cells ({} -> {} cells) was accepted: '
+            '{}'.format(eps, n, m, status))
+    if not inrange and status.startswith('ok'):
+        bad('not-contained-accepted', 'smaller grid starts {} cells to the right of the larger '
+            'one but the range was accepted: {}'.format(-s if k < 0 else s, status))
+    if status.startswith('ok'):
+        got = int(op.offset[0])
+        if m != n and (abs(s - got) > half or not 0 <= got <= d):
+            bad('offset-not-nearest', 'accepted with offset {} for a shift of {} cells'.format(
+                got, s))
+        if m == n and got != 0:
+            bad('offset-not-nearest', 'unchanged axis: offset {}'.format(got))
+        r = random.Random(case['vseed'])
+        x = rand_data(r, (n,), 'float64')
+        try:
+            rx = op(x).asarray()
+            blk = rx[got:got + n] if m >= n else rx
+            src = x if m >= n else x[got:got + m]
+            if ilist(blk) != ilist(src):
+                bad('block', 'the overlapping block is not copied at offset {}'.format(got))
+        except Exception as e:  # noqa
+            bad('call', 'accepted operator cannot be called: {}: {}'.format(
+                type(e).__name__, str(e)[:120]))
+    elif not status.startswith('err:shift') and not status.startswith('err:not-contained'):
+        bad('refusal-kind', 'unexpected refusal ' + status)
+    lines.append('offsptol lo={} hi={} n={} bl={} br={} rlo={} rhi={} rn={} rbl={} rbr={} '
+                 'rtol={} atol={}'.format(fs(lo), fs(hi), n, int(bl), int(br), fs(rlo), fs(rhi), m,
+                                          int(bl), int(br), fs(core.frac(NP_RTOL)),
+                                          fs(core.frac(NP_ATOL))))
+    answers.append(status)
+    return problems, lines, answers, status
+
+
+def tolerance_stream(ctx, deep=False, model=True):
+    count = 200 if (ctx.quick and not deep) else 2000
+    all_lines, all_answers, owners = [], [], []
+    for case in tolerance_cases(ctx, count):
+        problems, lines, answers, status = run_tolerance_case(ctx, case)
+        seen = set()
+        for tag, text in problems:
+            if tag not in seen:
+                seen.add(tag)
+                ctx.violation('ResizingOperator tolerance {} axis={} misalignment={} contained={}'
+                              .format(tag, case['axkind'], case['cls'],
+                                      'yes' if 0 <= case['k'] <= abs(case['m'] - case['n'])
+                                      else 'no'), text[:500], dict(case, tag=tag))
+        verdict = 'none' if status is None else ('accepted' if status.startswith('ok') else
+                                                 'refused:' + status[4:])
+        ctx.case(('tolerance', case['axkind'], case['cls'], case['k'] < 0,
+                  case['k'] > abs(case['m'] - case['n']), verdict),
+                 sample={'case': case} if ctx.rng.random() < 0.01 else None)
+        ctx.hit('tolerance/{}/{}/{}'.format(case['axkind'], case['cls'], verdict))
+        all_lines += lines
+        all_answers += answers
+        owners += [case] * len(lines)
+    if model and all_lines:
+        outs = core.run_driver('C16', all_lines)
+        for line, impl, ans, case in zip(all_lines, all_answers, outs, owners):
+            ctx.hit('offsptol-model')
+            if impl != ans:
+                ctx.disagree({'kind': 'offsptol', 'line': line, 'case': case}, impl, ans,
+                             stream='_offset_from_spaces with np.around/np.isclose')
+
+
+# ---------------------------------------------------------------------------
 # RESULT OWNERSHIP and VALIDATION
 
 def ownership_problems(case, arr, res):
@@ -2165,6 +2306,7 @@ def run(ctx):
     array_stream(ctx)
     operator_stream(ctx)
     derived_stream(ctx)
+    tolerance_stream(ctx)
     ownership_stream(ctx)
     validation_stream(ctx)
     padconst_stream(ctx)
@@ -2195,6 +2337,12 @@ def run(ctx):
                  'opinv-model', 'opinv2-model', 'opderiv-model', 'opadjraw-model', 'invoff-model',
                  'derived/variant/range', 'derived/variant/ran_shp',
                  'derived/variant/ran_shp+offset']
+    expected += ['tolerance/grow/zero/accepted', 'tolerance/grow/tiny/accepted',
+                 'tolerance/grow/small/accepted', 'tolerance/grow/small/refused:shift-not-multiple',
+                 'tolerance/grow/large/refused:shift-not-multiple',
+                 'tolerance/shrink/small/accepted', 'tolerance/shrink/small/refused:shift-not-multiple',
+                 'tolerance/same/tiny/accepted', 'tolerance/same/small/refused:shifted-unchanged',
+                 'tolerance/grow/tiny/refused:not-contained', 'offsptol-model']
     expected_err = ['err:offset', 'err:padconst-adjoint', 'err:order0-empty', 'err:order1-short',
                     'err:periodic-too-long', 'err:symmetric-too-long']
     unhit = [b for b in expected if not ctx.branches.get(b)] + \
@@ -2214,6 +2362,7 @@ def search(ctx, broken):
         array_stream(ctx, deep=True, model=False)
         operator_stream(ctx, deep=True, model=False)
         derived_stream(ctx, deep=True, model=False)
+        tolerance_stream(ctx, deep=True, model=False)
         history_stream(ctx, deep=True, model=False)
         padconst_stream(ctx, deep=True, model=False)
         ownership_stream(ctx)
@@ -2240,6 +2389,10 @@ def replay(ctx, case):
         return '; '.join(problems) if problems else None
     if case.get('kind') == 'derived':
         problems, _, _, _ = run_derived_case(ctx, case)
+        problems = [t for tag, t in problems if case.get('tag') in (None, tag)]
+        return '; '.join(problems) if problems else None
+    if case.get('kind') == 'tolerance':
+        problems, _, _, _ = run_tolerance_case(ctx, case)
         problems = [t for tag, t in problems if case.get('tag') in (None, tag)]
         return '; '.join(problems) if problems else None
     if case.get('kind') in ('validation', 'ownership-op'):
